@@ -308,7 +308,11 @@ def run_check(mod, tier, seed, jobs, logpath):
                 agg["samples"] += list(r.get("samples", []))[:2]
             agg["hangs"] += r.get("hangs", [])
             agg["violations"] += r.get("violations", [])
-            agg["counters"].update(r.get("counters", {}))
+            for ck, cv in r.get("counters", {}).items():
+                if ck.startswith("max_"):
+                    agg["counters"][ck] = max(agg["counters"].get(ck, 0), cv)
+                else:
+                    agg["counters"][ck] += cv
             agg["caps"] += r.get("caps", [])
         elif st == "hang":
             agg["hangs"].append({"unit": repr(units[i])[:300], "why": payload})
